@@ -17,6 +17,7 @@ import (
 	"time"
 
 	metav1 "k8s.io/apimachinery/pkg/apis/meta/v1"
+	"k8s.io/apimachinery/pkg/types"
 	"k8s.io/apimachinery/pkg/util/sets"
 	apirequest "k8s.io/apiserver/pkg/endpoints/request"
 	"k8s.io/client-go/rest"
@@ -48,6 +49,10 @@ type LOp struct {
 	Used int32  `json:"used"`
 	B    bool   `json:"b"`
 	ID   int    `json:"id"`
+	// list: metadata of the delivered UpstreamCluster as the control plane sets it (0 = none): the generation counts up
+	// with every spec change and restarts at 1, under a new uid, after a delete + re-create under the same name
+	Gen int64  `json:"gen,omitempty"`
+	UID string `json:"uid,omitempty"`
 }
 
 type Loop struct {
@@ -128,12 +133,12 @@ func upName(u int) string   { return fmt.Sprintf("u%d", u) }
 func gwName(id int) string  { return fmt.Sprintf("gw-%d", id) }
 func i64p(v int64) *int64   { return &v }
 
-func loopCluster(u int, t int32) *proxyv1alpha1.UpstreamCluster {
+func loopCluster(u int, t int32, gen int64, uid string) *proxyv1alpha1.UpstreamCluster {
 	schema := proxyv1alpha1.FlowControlSchema{Name: loopSchema}
 	schema.Strategy = proxyv1alpha1.GlobalAllocateLimit
 	schema.MaxRequestsInflight = &proxyv1alpha1.MaxRequestsInflightFlowControlSchema{Max: 1}
 	schema.GlobalMaxRequestsInflight = &proxyv1alpha1.MaxRequestsInflightFlowControlSchema{Max: t}
-	return &proxyv1alpha1.UpstreamCluster{ObjectMeta: metav1.ObjectMeta{Name: upName(u)},
+	return &proxyv1alpha1.UpstreamCluster{ObjectMeta: metav1.ObjectMeta{Name: upName(u), Generation: gen, UID: types.UID(uid)},
 		Spec: proxyv1alpha1.UpstreamClusterSpec{FlowControl: proxyv1alpha1.FlowControl{Schemas: []proxyv1alpha1.FlowControlSchema{schema}}}}
 }
 
@@ -220,7 +225,7 @@ func (r *loopRig) gw(g int) *gwProc {
 func (r *loopRig) apply(op LOp) {
 	switch op.Op {
 	case "list":
-		if err := r.srv.List(loopCluster(op.U, op.T)); err != nil {
+		if err := r.srv.List(loopCluster(op.U, op.T, op.Gen, op.UID)); err != nil {
 			panic("list: " + err.Error())
 		}
 	case "handle":
@@ -869,9 +874,37 @@ type loopGen struct {
 	nextID int
 	pend   []LOp // deliveries of a limit change that are still on their way
 	counts map[string]int
+	gen    map[int]int64
+	uid    map[int]string
+}
+
+// listMeta: the metadata of the next object delivered for upstream u (see LOp.Gen)
+func (g *loopGen) listMeta(u int) (int64, string) {
+	if g.gen == nil {
+		g.gen, g.uid = map[int]int64{}, map[int]string{}
+	}
+	if _, ok := g.gen[u]; !ok {
+		if g.c.Rng.Intn(3) > 0 {
+			g.gen[u], g.uid[u] = 1, fmt.Sprintf("u%d", u)
+		} else {
+			g.gen[u] = 0
+		}
+		return g.gen[u], g.uid[u]
+	}
+	if g.gen[u] > 0 {
+		if g.c.Rng.Intn(4) == 0 {
+			g.gen[u], g.uid[u] = 1, g.uid[u]+"'"
+		} else {
+			g.gen[u]++
+		}
+	}
+	return g.gen[u], g.uid[u]
 }
 
 func (g *loopGen) emit(op LOp) {
+	if op.Op == "list" {
+		op.Gen, op.UID = g.listMeta(op.U)
+	}
 	g.h.Ops = append(g.h.Ops, op)
 	g.r.apply(op)
 	g.counts[op.Op]++
